@@ -76,10 +76,17 @@ class Z3Ctx:
         self.sqrts = {}
         self.side = []       # definitional constraints (sqrt)
         self.int_as_real = int_as_real
+        self.has_int = False
 
     def var(self, name, kind):
+        import terms as _tm
+        if name in _tm.INT_SYMS:
+            kind = _tm.INT_SYMS[name]
         if name not in self.vars:
-            if kind in INTS and not self.int_as_real:
+            if name in _tm.STRICT_INTS:
+                self.vars[name] = z3.Int(name)
+                self.has_int = True
+            elif kind in INTS and not self.int_as_real:
                 self.vars[name] = z3.Int(name)
             else:
                 self.vars[name] = z3.Real(name)
@@ -159,7 +166,7 @@ def z3_check(hyps, goal, timeout_s=60, int_as_real=True):
     ctx = Z3Ctx(int_as_real=int_as_real)
     hs = [ctx.formula(h) for h in hyps]
     g = ctx.formula(goal)
-    s = z3.SolverFor("QF_NRA") if int_as_real else z3.Solver()
+    s = z3.SolverFor("QF_NRA") if (int_as_real and not ctx.has_int) else z3.Solver()
     s.set("timeout", int(timeout_s * 1000))
     for h in hs:
         s.add(h)
@@ -180,10 +187,11 @@ def z3_check(hyps, goal, timeout_s=60, int_as_real=True):
 def z3_sat(hyps, timeout_s=20):
     """Satisfiability of the hypotheses (vacuity guard / path feasibility): 'sat'|'unsat'|'unknown'."""
     ctx = Z3Ctx()
-    s = z3.SolverFor("QF_NRA")
+    fs = [ctx.formula(h) for h in hyps]
+    s = z3.SolverFor("QF_NRA") if not ctx.has_int else z3.Solver()
     s.set("timeout", int(timeout_s * 1000))
-    for h in hyps:
-        s.add(ctx.formula(h))
+    for f in fs:
+        s.add(f)
     for c in ctx.side:
         s.add(c)
     r = s.check()
